@@ -881,6 +881,8 @@ func main() {
 			{cfgT{Cidrs: []string{"10.0.0.0/8", "127.0.0.0/8"}, MaxHops: 5}, reqT{"10.0.0.1:1234", map[string]string{"X-Forwarded-For": "127.0.0.1, 9.9.9.9"}, nil}},
 			{cfgT{Cidrs: []string{"10.0.0.0/8"}, MaxHops: 3}, reqT{"10.0.0.1:1234", map[string]string{"X-Forwarded-For": "203.0.113.1, 70.41.3.18, 150.172.238.178"}, nil}},
 			{cfgT{Cidrs: []string{"10.0.0.0/8"}, MaxHops: 2}, reqT{"10.0.0.1:1234", map[string]string{"X-Forwarded-For": "203.0.113.1, 10.0.0.1, 10.0.0.2"}, nil}},
+			// K18c: X-Real-IP configured in front of X-Forwarded-For names a trusted proxy while X-Forwarded-For names an untrusted client
+			{cfgT{Cidrs: []string{"10.0.0.0/8"}, Headers: []string{"X-Real-IP", "X-Forwarded-For"}, MaxHops: 2}, reqT{"10.0.0.1:1234", map[string]string{"X-Real-IP": "10.0.0.2", "X-Forwarded-For": "9.9.9.9, 10.0.0.2"}, nil}},
 			// a hop limit of zero or less is the default (1), also when given explicitly: the walk stops at the second proxy
 			{cfgT{Cidrs: []string{"10.0.0.0/8"}, MaxHops: 0, ExplicitZero: true}, reqT{"10.0.0.1:1234", map[string]string{"X-Forwarded-For": "198.51.100.66, 10.0.0.3, 10.0.0.2"}, nil}},
 			{cfgT{Cidrs: []string{"10.0.0.0/8"}, MaxHops: -3}, reqT{"10.0.0.1:1234", map[string]string{"X-Forwarded-For": "198.51.100.66, 10.0.0.3, 10.0.0.2"}, nil}},
